@@ -6,7 +6,9 @@ partial def runLoop (h : IO.FS.Stream) (out : IO.FS.Stream) : IO Unit := do
   let line ← h.getLine
   if line.isEmpty then return ()
   let t := line.trimAscii.toString
-  if !t.isEmpty then out.putStrLn (Proto.runCase t)
+  if !t.isEmpty then
+    out.putStrLn (Proto.runCase t)
+    out.flush          -- one answer per request also over a pipe (the differential fuzz target talks to a child)
   runLoop h out
 
 def main (args : List String) : IO UInt32 := do
